@@ -218,6 +218,48 @@ pub fn released(r: &Rec) -> Option<i32> {
     }
 }
 
+/// duplicate `fd` onto the lowest free number >= `min`, close-on-exec (never logged)
+pub fn raw_dup_high(fd: i32, min: usize) -> Option<i32> {
+    let r = unsafe { raw(sc::nr::FCNTL, [fd as usize, 1030 /* F_DUPFD_CLOEXEC */, min, 0, 0, 0]) };
+    if is_err(r) {
+        None
+    } else {
+        Some(r as i32)
+    }
+}
+
+/// Do the numbers `a` and `b` name the SAME open file description?  `kcmp(KCMP_FILE)`; on a kernel
+/// without it: same (st_dev, st_ino) and same status flags.  Independent of the numbers themselves:
+/// this is how the census tells "still the descriptor that was there" from "closed, number reused".
+pub fn same_file(a: i32, b: i32) -> bool {
+    let pid = raw_getpid();
+    let r = unsafe { raw(sc::nr::KCMP, [pid, pid, 0 /* KCMP_FILE */, a as usize, b as usize, 0]) };
+    if !is_err(r) {
+        return r == 0;
+    }
+    let key = |fd: i32| {
+        let mut st = [0u64; 18]; // struct stat (x86_64): st_dev, st_ino first
+        let r = unsafe { raw(sc::nr::FSTAT, [fd as usize, st.as_mut_ptr() as usize, 0, 0, 0, 0]) };
+        let fl = unsafe { raw(sc::nr::FCNTL, [fd as usize, 3 /* F_GETFL */, 0, 0, 0, 0]) };
+        (is_err(r), st[0], st[1], fl)
+    };
+    let (ka, kb) = (key(a), key(b));
+    !ka.0 && ka == kb
+}
+
+/// RLIMIT_NOFILE (soft, hard), read / written through the raw syscall (never logged)
+pub fn raw_get_nofile() -> (u64, u64) {
+    let mut lim = [0u64; 2];
+    unsafe { raw(sc::nr::PRLIMIT64, [0, 7 /* RLIMIT_NOFILE */, 0, lim.as_mut_ptr() as usize, 0, 0]) };
+    (lim[0], lim[1])
+}
+
+pub fn raw_set_nofile(soft: u64, hard: u64) -> bool {
+    let lim = [soft, hard];
+    let r = unsafe { raw(sc::nr::PRLIMIT64, [0, 7, lim.as_ptr() as usize, 0, 0, 0]) };
+    !is_err(r)
+}
+
 /// A raw, never-logged pipe (for child records / markers)
 pub fn raw_pipe_cloexec() -> (i32, i32) {
     let mut fds = [-1i32; 2];
